@@ -40,14 +40,30 @@ def run(R):
                     # XChaCha: 32-bit counter as implemented and as in draft-irtf-cfrg-xchacha; not exercised across 2^32 (DESIGN.md C03)
                     starts += [R.rng.getrandbits(32) & (0xffffffff if variant == "ietf" else 0x7fffffff) for _ in range(40 if thorough else 1)]
                 for s in starts:
-                    n = R.rng.choice([130, 131, 192, 200, 257, 320, 511] if thorough else [129, 130])
+                    n = R.rng.choice([130, 131, 192, 200, 257, 320, 511] if thorough else [150, 151])
                     h = sc.base(R, variant, rounds, kl, tag + "/%d" % s)
                     h["id"] = R.next_id()
                     pre = [] if s == 0 else [{"op": "set_counter" if wide else "seek", "x": 1, "block": sc.limbs(s)}]
                     data = vlib.prng_bytes(R.seed, "c03d/%s/%d" % (tag, s), n)
-                    h["ev"] = [{"op": "new"}] + pre + [{"op": "process", "x": 1, "data": data[:70]}, {"op": "process_mut", "x": 1, "data": data[70:]}]
+                    # three calls: the first ends mid-block, the second starts mid-block, crosses a block end and ends mid-block, the third shows where
+                    # the context believes it is; for one start per (variant, rounds, key length) the counter is set on a context already in use
+                    cut2 = 70 + 64 + 5 if n > 70 + 64 + 5 + 1 else n - 1
+                    h["ev"] = [{"op": "new"}] + pre + [{"op": "process", "x": 1, "data": data[:70]}, {"op": "process_mut", "x": 1, "data": data[70:cut2]}, {"op": "process", "x": 1, "data": data[cut2:]}]
                     hs.append(h)
                     R.count((variant, rounds, kl, s), trivial=False)
+                    if s == starts[1] or s == starts[-1]:
+                        h2 = dict(h, id=R.next_id())
+                        # after a partial block, to the block that follows it (s = 1) resp. after a whole block, to a far block
+                        h2["ev"] = [{"op": "new"}, {"op": "process", "x": 1, "data": data[:33 if s == starts[1] else 64]}] + (pre or [{"op": "seek" if not wide else "set_counter", "x": 1, "block": sc.limbs(0)}]) + \
+                                   [{"op": "process", "x": 1, "data": data[:70]}]
+                        hs.append(h2)
+                        R.count((variant, rounds, kl, s, "reposition-in-use"), trivial=False)
+                        if s == starts[1]:                 # positioned twice in a row, the second time one block back
+                            h3 = dict(h, id=R.next_id())
+                            posop = "set_counter" if wide else "seek"
+                            h3["ev"] = [{"op": "new"}, {"op": posop, "x": 1, "block": sc.limbs(s + 1)}, {"op": posop, "x": 1, "block": sc.limbs(s)}, {"op": "process", "x": 1, "data": data[:70]}]
+                            hs.append(h3)
+                            R.count((variant, rounds, kl, s, "positioned-twice"), trivial=False)
     # special keys / nonces: all-zero and all-ones
     for variant, (nl, keylens, wide) in sc.VARIANTS.items():
         for kb, nb in ((0, 0), (255, 255), (0, 255)):
@@ -68,12 +84,15 @@ def run(R):
                         evs.append({"op": "block", "engine": eng, "rounds": rounds, "key": key, "nonce": nonce, "ctr32": sc.limbs(0xffffffff), "inc": 1})
                         evs.append({"op": "block", "engine": eng, "rounds": rounds, "key": key, "nonce": nonce, "ctr": sc.limbs(0xffffffff | (9 << 32)), "inc64": 1})
                         evs.append({"op": "block", "engine": eng, "rounds": rounds, "key": key, "nonce": nonce, "ctr": sc.limbs(0xfffffffe), "inc64": 3})
+                        # positioned, advanced, positioned again (to a value that is not a bit-superset of where the state stands)
+                        evs.append({"op": "block", "engine": eng, "rounds": rounds, "key": key, "nonce": nonce, "ctr32": sc.limbs(0xf0f0), "inc": 3, "ctr32b": sc.limbs(0x0101)})
+                        evs.append({"op": "block", "engine": eng, "rounds": rounds, "key": key, "nonce": nonce, "inc": 2, "ctr32b": sc.limbs(1)})
                     else:
                         evs.append({"op": "hchacha", "engine": eng, "rounds": rounds, "key": key, "nonce": nonce})
     for i in range(0, len(evs), 6):
         hs.append({"cls": "engine", "id": R.next_id(), "ev": evs[i:i + 6]})
         for e in evs[i:i + 6]:
-            R.count(("engine", e["engine"], e["rounds"], len(e["key"]), len(e["nonce"]), e["op"], "ctr" in e, "ctr32" in e))
+            R.count(("engine", e["engine"], e["rounds"], len(e["key"]), len(e["nonce"]), e["op"], "ctr" in e, "ctr32" in e, "ctr32b" in e))
     R.rule = ("one history per (variant, rounds, key length, start block): [new, seek/set_counter(start), process(70), process_mut(rest)] with start in "
               "{0,1,2^32-2,2^32-1} (IETF), {0,1,2^31-1} (XChaCha), {0,1,2^32-2,2^32-1,2^32-1+5*2^32} (64-bit counters) + seeded starts; special keys; "
               "engine queries native/portable x rounds x key 16/32 x nonce 8/12/16 with counter increments across the word boundary; all non-trivial")
